@@ -447,6 +447,28 @@ func properties() map[string]*PropertyDef {
 		LevelNote:   "see assumptions; trusted: go/ssa lowering, govc encoding, solvers",
 		Technique:   "contract-based deductive verification (govc): postconditions and frame conditions, WP over go/ssa, z3/cvc5",
 	})
+	ps = append(ps, &PropertyDef{
+		ID:       "C07",
+		Patterns: []string{"./hostsfile"},
+		Funcs:    []string{"hostsfile.cutStringField", "hostsfile.cutField", "hostsfile.(*Record).UnmarshalText"},
+		Lemmas:   []string{"fieldStartZero", "fieldStartStep"},
+		Kinds:    map[string]bool{"ensures": true, "invariant": true, "requires": true, "frame": true, "lemma": true, "bounds": true, "nil": true, "variant": true},
+		NeedsClauses: map[string][]string{
+			"hostsfile.cutStringField": {"no_space", "cut"},
+			"hostsfile.cutField":       {"no_space", "cut"},
+			"hostsfile.(*Record).UnmarshalText": {"empty_line", "no_hosts", "bad_address", "address", "names_are_the_fields", "accepted_iff_all_names_valid",
+				"at_field", "rest", "valid_so_far", "recut", "placed"},
+		},
+		Assumptions: []string{
+			"PARTIAL CLAIM. Proved for Record.UnmarshalText (all byte strings): with the text before the first '#' trimmed of spaces and tabs and split into fields at runs of spaces/tabs (positions defined by a recursive spec function over the line's own bytes) - no field gives ErrEmptyLine, one field ErrNoHosts; otherwise the address is netip's parse of field 0 (error when it does not parse); the names are exactly fields 1..n as views of the line, each accepted by ValidateDomainName, where n is the number of leading valid names: err == nil iff no further field exists, and otherwise the next field is the first one ValidateDomainName rejects (only the names before it are retained)",
+			"NOT decided: MarshalText and the re-parse round trip (needs an induction relating the positions of the marshalled text to the field positions; not built); that the error for a bad name is an *AddrError (it is wrapped by fmt.Errorf: only err != nil is proved)",
+			"assumed: netip.Addr.UnmarshalText as uninterpreted parseAddrOK/parseAddr; bytes/strings IndexAny, Trim, TrimLeft, IndexByte as 'first/last position in/not in the set' functions; ValidateDomainName's contract is proved under C03",
+		},
+		Explanation: "the field grammar is a hidden recursive position function over the real line bytes, unfolded by one-step lemmas at the two loops of the real parser",
+		LevelText:   "proof (partial): the acceptance/classification/content half of the property for all inputs; the MarshalText round trip is not decided",
+		LevelNote:   "see assumptions; trusted: go/ssa lowering, govc encoding, solvers",
+		Technique:   "contract-based deductive verification (govc): loop invariants over absolute positions, hidden recursive spec function with step lemmas, WP over go/ssa, z3/cvc5",
+	})
 	out := map[string]*PropertyDef{}
 	for _, p := range ps {
 		out[p.ID] = p
